@@ -436,7 +436,7 @@ def r_wrapper_pure(P, chk):
             chk.violation(rid, "wrapper-pure:%s:%s" % (f.name, key(x["c"][0])[:30]), f.where(x),
                           "%s writes `%s` while emitting the document wrapper: state read by the body exporter (metadata values, "
                           "scratch pad) now depends on whether the header was printed" % (f.name, f.src(x)[:50]))
-    chk.floor(rid, n, 4, "document header / footer functions")
+    chk.floor(rid, n, 3, "document header / footer functions")
     for k2, why in WRAPPER_MAY_STORE.items():
         chk.notes.append("R-WRAPPER-PURE allows stores to `%s`: %s" % (k2, why))
 
